@@ -4,6 +4,7 @@ import z3
 from .zs import *  # noqa
 from .values import *  # noqa
 from .state import Tbl, schema, parse_sql, where_pred
+from . import sqlx
 from .contract import symbolic_rowlist
 from . import heap as H
 
@@ -50,10 +51,17 @@ def call_bound(ex, recv, name, args, kwargs, e):
         raise Unsupported("cursor method %s" % name)
     if isinstance(recv, VModule):
         return call_module(ex, recv.name, name, args, kwargs, e)
+    if isinstance(recv, VUnknownColl) and name in ("add", "append", "discard", "update", "extend", "clear"):
+        return VConst(None)
     if isinstance(recv, VSet) and name == "add":
         raise Unsupported("set.add outside an accumulation loop at %d" % e.lineno)
     if isinstance(recv, VRow) and name == "get":
         key = args[0]
+        if recv.view is not None:
+            if key.py not in recv.view:
+                return args[1] if len(args) > 1 else VConst(None)
+            t_, r_, c_ = recv.view[key.py]
+            return t_.value(c_, r_)
         if not recv.tbl.sch.has(key.py):
             return args[1] if len(args) > 1 else VConst(None)
         return recv.tbl.value(key.py, recv.rid)
@@ -67,6 +75,15 @@ def call_bound(ex, recv, name, args, kwargs, e):
         m = ex.st.heap["%s.%s" % (recv.cls, recv.field)]
         if name == "values":
             return VCursor("dictvalues", d=recv)
+        if name == "items":
+            return VCursor("dictitems", d=recv)
+        if name == "get":
+            kt = ex.scalar(args[0], "str", e)
+            if len(args) > 1 and not (isinstance(args[1], VConst) and args[1].py is None):
+                raise Unsupported("dict.get with a default at %d" % e.lineno)
+            return VRef(m[recv.obj][kt], recv.valcls, nullable=True)
+        if name == "keys":
+            return dict_keys(ex, recv)
         if name == "pop":
             kt = ex.scalar(args[0], "str", e)
             if len(args) < 2:
@@ -209,10 +226,34 @@ def call_func(ex, name, args, kwargs, e):
             return VOpaque(Function("py_str", Json, Json)(v.t))
         raise Unsupported("str() of %r" % (v,))
     if name == "int":
-        raise Unsupported("int() at %d" % e.lineno)
+        v = args[0] if args else VConst(0)
+        if isinstance(v, VOpt):
+            ex.require(Not(v.is_none), "TypeError", e)
+            v = v.val
+        k = kind_of(v)
+        if k in ("int", "bool"):
+            return VZ(ex.scalar(v, "int", e), "int")
+        if k == "real":
+            x = v.t                       # truncation towards zero
+            return VZ(If(x >= 0, z3.ToInt(x), -z3.ToInt(-x)), "int")
+        if k == "str":
+            # int("7") == 7; which other strings int() accepts ("+7", " 7 ", "0_7", ...) is left open, except that a
+            # string it accepts denotes the integer it returns: the decimal rendering of that integer parses back to it
+            ex.assume(FA([INT], lambda i: And(int_parses(dec(i)), int_of(dec(i)) == i), pats=lambda i: [dec(i)]))
+            ok = int_parses(v.t)
+            ex.require(ok, "ValueError", e)
+            return VZ(int_of(v.t), "int")
+        raise Unsupported("int() of %s at %d" % (k, e.lineno))
+    if name == "float":
+        v = args[0]
+        if kind_of(v) in ("int", "real", "bool"):
+            return VZ(ex.scalar(v, "real", e), "real")
+        raise Unsupported("float() at %d" % e.lineno)
     raise Unsupported("builtin %s at %d" % (name, e.lineno))
 
 
+int_parses = Function("int_parses", Str, BOOL)      # int(s) does not raise
+int_of = Function("int_of", Str, INT)                # its value
 sumfold = Function("sumfold", ArraySort(INT, INT), INT, INT)  # sum of f[0..n)
 
 
@@ -232,7 +273,17 @@ def do_sum(ex, v, e):
     raise Unsupported("sum of %r" % (v,))
 
 
+def dict_keys(ex, d):
+    """the key set of a registry dict (a snapshot: Python would raise if the dict changed during iteration)"""
+    m = ex.st.heap["%s.%s" % (d.cls, d.field)][d.obj]
+    mem = fresh("keys", ArraySort(Str, BOOL))
+    ex.assume(FA([Str], lambda y: mem[y] == (m[y] != 0), pats=lambda y: [mem[y]]))
+    return VSet("str", mem)
+
+
 def do_sorted(ex, v, e):
+    if isinstance(v, VDict):
+        v = dict_keys(ex, v)
     if isinstance(v, VSet):
         if v.mem is None:
             return VList(IntVal(0), lambda i: VConst(None))
@@ -282,7 +333,10 @@ def do_sorted(ex, v, e):
 def sql_execute(ex, conn, args, e):
     if not (args and isinstance(args[0], VConst) and isinstance(args[0].py, str)):
         raise Unsupported("non-constant SQL at %d" % e.lineno)
-    stt = parse_sql(args[0].py)
+    try:
+        stt = parse_sql(args[0].py)
+    except Unsupported:
+        stt = sqlx.parse(args[0].py)      # beyond the legacy forms: general WHERE expressions, column lists, PK joins
     params = []
     if len(args) > 1:
         if not isinstance(args[1], VTuple):
@@ -290,6 +344,9 @@ def sql_execute(ex, conn, args, e):
         params = args[1].items
     if len(params) != stt.nparams:
         ex.require(BoolVal(False), "ProgrammingError", e)
+        raise Unsupported("SQL parameter count at %d" % e.lineno)
+    if getattr(stt, "general", False):
+        return sql_execute_general(ex, conn, stt, params, e)
     key = "%s.%s" % (conn.which, stt.table)
     if key not in ex.st.tabs:
         ex.require(BoolVal(False), "OperationalError", e)
@@ -315,14 +372,44 @@ def sql_execute(ex, conn, args, e):
     raise Unsupported(stt.kind)
 
 
+def sql_execute_general(ex, conn, stt, params, e):
+    ex.stmts.append((e.lineno, conn.which, stt)) if hasattr(ex, "stmts") else None
+    if stt.kind == "select":
+        return sqlx.prepare_select(ex, conn, stt, params, e)
+    key, tbl = sqlx.table(ex, conn.which, stt.table, e)
+    pred = sqlx.where_general(ex, conn, stt, tbl, params, e)
+    ex.st.in_tx[conn.which] = BoolVal(True)
+    if stt.kind == "delete":
+        return sql_delete(ex, key, tbl, stt, params, e, pred=pred)
+    if stt.kind == "update":
+        names, vals = [], []
+        for c, v in stt.sets:
+            if not tbl.sch.has(c):
+                ex.require(BoolVal(False), "OperationalError", e)
+                raise Unsupported("no column %s.%s at %d" % (key, c, e.lineno))
+            names.append(c)
+            if v[0] == "param":
+                vals.append(params[v[1]])
+            elif v[0] == "null":
+                vals.append(VConst(None))
+            elif v[0] in ("num", "str"):
+                vals.append(VZ(sqlx.literal(v, tbl.sch.col(c).kind), tbl.sch.col(c).kind))
+            else:
+                raise Unsupported("UPDATE SET from a column at %d" % e.lineno)
+        stt.sets = names
+        return sql_update(ex, key, tbl, stt, vals, e, pred=pred)
+    raise Unsupported(stt.kind)
+
+
 def fetchone(ex, cur, e):
     tbl, pred = cur.tbl, cur.pred
     r0 = fresh("row", INT)
     some = EX([INT], lambda r: And(tbl.live[r], pred(r)))
     ex.assume(Implies(some, And(tbl.live[r0], pred(r0))))
-    if cur.stt.distinct:
+    if cur.stt.distinct or getattr(cur, "distinct_key", None):
         raise Unsupported("fetchone on DISTINCT")
-    return VOpt(Not(And(tbl.live[r0], pred(r0))), VRow(tbl, r0))
+    view = getattr(cur, "view", None)
+    return VOpt(Not(And(tbl.live[r0], pred(r0))), VRow(tbl, r0, view(r0) if view else None))
 
 
 def fetchall(ex, cur, e):
@@ -340,7 +427,25 @@ def fetchall(ex, cur, e):
         lst = VList(seq.n, lambda i: VMap({c: seq.at(i)}))
         lst.distinct_set = v
         return lst
-    v, facts = symbolic_rowlist(tbl, pred, "rows", cur.stt.order)
+    if getattr(cur, "distinct_key", None):
+        k = cur.distinct_key
+        t0, _, c0 = cur.view(Const("r!probe", INT))[k]
+        kind = t0.sch.col(c0).kind
+
+        def val(r):
+            t_, r_, c_ = cur.view(r)[k]
+            return t_.get(c_, r_)
+        mem = fresh("distinct", ArraySort(sort_of(kind), BOOL))
+        ex.assume(FA([sort_of(kind)], lambda y: mem[y] == EX([INT], lambda r: And(tbl.live[r], pred(r), val(r) == y)),
+                     pats=lambda y: [mem[y]]))
+        v = VSet(kind, mem)
+        seq = ex.as_sequence(v, e)
+        lst = VList(seq.n, lambda i: VMap({k: seq.at(i)}))
+        lst.distinct_set = v
+        return lst
+    general = getattr(cur.stt, "general", False)
+    v, facts = symbolic_rowlist(tbl, pred, "rows", cur.stt.order_col if general else cur.stt.order)
+    v.viewfn = getattr(cur, "view", None)
     for f in facts:
         ex.assume(f)
     return v
@@ -399,10 +504,11 @@ def sql_insert(ex, key, tbl, stt, params, e):
     return VCursor("insert", lastrowid=r)
 
 
-def sql_update(ex, key, tbl, stt, params, e):
+def sql_update(ex, key, tbl, stt, params, e, pred=None):
     sch = tbl.sch
     setv = params[:len(stt.sets)]
-    pred = where_pred(tbl, stt.where, params[len(stt.sets):])
+    if pred is None:
+        pred = where_pred(tbl, stt.where, params[len(stt.sets):])
     cols, nulls = {}, {}
     axioms = []
     for c, v in zip(stt.sets, setv):
@@ -426,8 +532,9 @@ def sql_update(ex, key, tbl, stt, params, e):
     return VCursor("update")
 
 
-def sql_delete(ex, key, tbl, stt, params, e):
-    pred = where_pred(tbl, stt.where, params)
+def sql_delete(ex, key, tbl, stt, params, e, pred=None):
+    if pred is None:
+        pred = where_pred(tbl, stt.where, params)
     # FK: no live child row references a deleted parent row (immediate enforcement)
     for (ckey, ccol, pcol) in fk_children(key):
         ctbl = ex.st.t(ckey)
